@@ -140,7 +140,7 @@ def paint_attrs(rng, F, own=True):
         if rng.random() < 0.2:
             at.append(("stroke-dasharray", rng.choice(["5,3", "5 3 2", "4", "none", "6, 2, 1, 2", "0 9", "0 6", "12 0 3"])))
             if rng.random() < 0.5:
-                at.append(("stroke-dashoffset", rng.choice(["0", "2", "5.5"])))
+                at.append(("stroke-dashoffset", rng.choice(["0", "2", "5.5", "12", "25", "-8", "-13"])))
         if F.opacity and rng.random() < 0.2:
             at.append(("stroke-opacity", rng.choice(["0.5", "1", "0.3"])))
     if F.display and rng.random() < 0.1:
@@ -198,9 +198,9 @@ class Gen:
                 h = rng.choice(["0", h]) if w != "0" else h
             at += [("x", num(rng, 0, 60)), ("y", num(rng, 0, 60)), ("width", w), ("height", h)]
             if rng.random() < 0.25:
-                at.append(("rx", rng.choice(["2", "5", "10"])))
+                at.append(("rx", rng.choice(["2", "5", "10", "0"])))
                 if rng.random() < 0.4:
-                    at.append(("ry", rng.choice(["2", "4"])))
+                    at.append(("ry", rng.choice(["2", "4", "0"])))
         elif kind == "circle":
             at += [("cx", num(rng, 20, 80)), ("cy", num(rng, 20, 80)), ("r", num(rng, 3, 30) if not (F.degenerate and rng.random() < 0.1) else "0")]
         elif kind == "ellipse":
